@@ -57,6 +57,11 @@ CHECKS = {
             'sentinel payloads in the output text, plus strict decoding of foreign-permission documents',
             'Held on the executions produced: no omitted field or clear-text redacted sentinel in any output '
             'for a caller without the permission, present for callers holding it.', '4 C13'),
+    'C07': ('runtime monitoring: two spec versions (A, and B = A after documented backwards-compatible edits) generated '
+            'and imported side by side; messages of each decoded by the other and compared with a model-level '
+            'A-view projection and a contains-unknown predicate',
+            'Held on the executions produced: lenient old peers read the A-view, strict old peers refuse exactly '
+            'messages with unknown material, new peers read old messages with new fields at defaults.', '4 C07'),
 }
 
 PENDING = {}
